@@ -9,7 +9,7 @@ import types
 
 from ..framework import Check, Violation
 from ..xplore import explore, run_once
-from .. import harness, memfs
+from .. import env, harness, memfs
 from ..simdev.base import World
 from ..simdev.bringup import BringUpDevice, Lazy, version_grid
 from ledgerblue.commException import CommException
@@ -65,6 +65,12 @@ class DetRandom:
         if self.n > 20000:
             raise RuntimeError("PIN generator does not terminate")
         return seq[(self.n * 7) % len(seq)]
+
+    def index(self, n):
+        self.n += 1
+        if self.n > 20000:
+            raise RuntimeError("PIN generator does not terminate")
+        return (self.n * 7) % n
 
 
 class C09(Check):
@@ -140,12 +146,13 @@ class C09(Check):
             if case["pin"] in ("file", "forced"):
                 fs.files[PIN_FILE] = GOOD_PIN
             environ = {"PIN": DEFAULT_PIN.decode()}
-            saved = (LPIN.os, LPIN.__dict__.get("open"), LPIN.random, RUN.configure_logging,
+            _unbind_random = lambda: None    # noqa: E731
+            saved = (LPIN.os, LPIN.__dict__.get("open"), None, RUN.configure_logging,
                      SRV.socketserver, manager_ledger.os, manager_sgx.os)
             record = []
             LPIN.os = memfs.FakeOs(fs)
             LPIN.open = fs.open
-            LPIN.random = DetRandom()
+            _unbind_random = env.bind_random(LPIN, DetRandom())
             RUN.configure_logging = lambda p: None
             SRV.socketserver = FakeSocketServerModule(record)
             fake_os = memfs.FakeOs(fs, environ)
@@ -178,7 +185,8 @@ class C09(Check):
             except BaseException as e:   # noqa
                 crashed = type(e).__name__
             finally:
-                (LPIN.os, op, LPIN.random, RUN.configure_logging, SRV.socketserver,
+                _unbind_random()
+                (LPIN.os, op, _ignored, RUN.configure_logging, SRV.socketserver,
                  manager_ledger.os, manager_sgx.os) = saved
                 if op is None:
                     LPIN.__dict__.pop("open", None)
